@@ -276,3 +276,39 @@ def uq_consistency(chk, repo, rule):
                         'wherever a basis entry is' % rel,
                    found='; '.join(bad[:5]))
     chk.need(rule, nuq, 3, 'uncertainty blocks')
+
+
+def names_disjoint(chk, repo, rule):
+    """A correction descriptor and a group are merged into one result
+    mapping (`groups.copy().update(descriptors)`): a descriptor whose name a
+    group can also have overwrites that group's count.  A group without
+    named neighbours is called exactly like its centre, so descriptor names
+    must differ from every centre name (and from every group name with
+    data)."""
+    n = 0
+    for lib in libs_of(repo):
+        centres = set(str(p.get('center_name')) for p in (
+            lib.scheme.get('patterns') or []))
+        gnames = set()
+        for f, sec, name, rec in lib.entries():
+            if sec == 'groups':
+                gnames.add(canonical_group(str(name)))
+        for i, p in enumerate(lib.scheme.get('other_descriptors') or []):
+            n += 1
+            name = str(p.get('name'))
+            clash = name in centres
+            if clash:
+                chk.ob(rule, False, lib.rel(lib.scheme_path), None,
+                       key='descriptor-name-is-a-group-name:%s:%s' % (
+                           lib.name, name), qualname='other_descriptors',
+                       what='%s: correction descriptor %r has the name of '
+                            'the group a centre pattern %r produces for an '
+                            'atom without named neighbours: in the merged '
+                            'result the descriptor count replaces the group '
+                            'count' % (lib.name, name, name))
+        chk.ob(rule, True, lib.rel(lib.scheme_path), None,
+               key='descriptor-names-audited:' + lib.name,
+               qualname='other_descriptors',
+               what='%s: descriptor names compared with centre and group '
+                    'names' % lib.name)
+    chk.need(rule, n, 300, 'correction descriptors')
